@@ -39,6 +39,7 @@ mod c16;
 mod c18;
 mod c19;
 mod cover;
+mod fp;
 mod svc;
 #[cfg(feature = "rustc_ref")]
 mod c03;
@@ -168,6 +169,7 @@ fn main() {
         "c18" => c18::main(rest),
         "c19" => c19::main(rest),
         "cover" => cover::main(rest),
+        "fp" => fp::main(rest),
         #[cfg(feature = "rustc_ref")]
         "c03" => c03::main(rest),
         _ => {
